@@ -15,7 +15,9 @@ for n in ["c16_u8_00", "c16_u32pair_00", "c16_opt_u8_00", "c16_enum3_00", "c16_v
           "c16_u8_21", "c16_sender_00", "c16_sender_10", "c16_sender_21", "c16_sender_pair_10", "c16_sender_pair_20",
           "c16_receiver_10", "c16_receiver_20", "c16_shm_00", "c16_shm_01", "c16_shm_02", "c16_shm_pair_01",
           "c16_shm_pair_02", "c16_mixed_11", "c16_drop_undecoded_21"]:
-    H(n, ["C16"], sym=_c16_sym, bounds=_c16_b)
+    # with no attachment of the right kind no payload can decode successfully
+    opt = ["REACH_OK"] if n in ("c16_sender_00", "c16_shm_pair_01") else []
+    H(n, ["C16"], sym=_c16_sym, bounds=_c16_b, opt=opt)
 
 PROPERTIES = {
     "C16": dict(
@@ -37,3 +39,15 @@ PROPERTIES.update({
     "C02": dict(bounds="", outside="", assumptions=[]),
     "C13": dict(bounds="", outside="", assumptions=[]),
 })
+
+# ---- byte-exact round trips (C01, C02 sequential core, C18) ------------------------------------
+_rt_sym = "message CONTENTS symbolic; length concrete per harness (name suffix); reported SO_SNDBUF 64 => first fragment 24 bytes, follow-ups 32"
+for n, t in [("rt_bytes_0", "quick"), ("rt_bytes_1", "quick"), ("rt_bytes_23", "thorough"), ("rt_bytes_24", "quick"),
+             ("rt_bytes_25", "quick"), ("rt_bytes_55", "thorough"), ("rt_bytes_56", "quick"), ("rt_bytes_57", "quick"),
+             ("rt_bytes_87", "thorough"), ("rt_bytes_88", "thorough"), ("rt_bytes_89", "quick")]:
+    H(n, ["C01", "C18"], tier=t, sym=_rt_sym, bounds="unwind 6; 1..4 packets")
+for n in ["rt_two_1_57", "rt_two_57_24", "rt_two_25_25"]:
+    H(n, ["C02"], sym=_rt_sym, bounds="unwind 6; two messages from two handles of one channel")
+for n in ["ipc_val_u8", "ipc_val_u64", "ipc_val_tuple_some", "ipc_val_tuple_none", "ipc_val_enum_a", "ipc_val_enum_b", "ipc_val_enum_c", "ipc_val_arr4",
+          "ipc_val_f64", "ipc_val_vec_0", "ipc_val_vec_3", "ipc_val_arr32", "ipc_bytes_0", "ipc_bytes_8"]:
+    H(n, ["C01"], sym="the sent VALUE symbolic (type in the name); reported SO_SNDBUF 64", bounds="unwind 8 (40 for arr32); value SHAPE (variant / Option tag / Vec length) concrete per harness, data symbolic")
